@@ -1048,7 +1048,44 @@ def replay_names(case):
     return {"reproduced": bool(failed), "failed": failed, "detail": "; ".join(failed)[:400] or "ok"}
 
 
-REPLAYERS = {'names': replay_names, 'setattr': replay_setattr, 'tables': replay_tables, 'threads': replay_threads, 'chunked': replay_chunked, 'sockread': replay_sockread, 'parseseq': replay_parseseq, 'roundtrip': replay_roundtrip, 'labelopt': replay_labelopt, 'crcseq': replay_crcseq, 'crc': replay_crc, 'construct': replay_construct, 'stream': replay_stream, 'socket': replay_stream, 'parse': replay_parse}
+def replay_options(case):
+    data = bytes.fromhex(case['data'])
+    mode = case.get('mode', 1)
+    label = case.get('labelmsm', 1)
+    failed = []
+    budget = 3 * len(data) + 8
+    ref_ev, ref_end, _ = drive_reader(io.BytesIO(data), mode, validate=1, parsed=True, labelmsm=label, max_calls=budget)
+    ref = [(bytes(e[1]), e[2]) for e in ref_ev if e[0] == 'pair']
+    if case['option'] == 'validate':
+        bad = bytearray(data)
+        for a, b in case['frames']:
+            bad[b - 2] ^= 0x40            # wrong checksum bytes on every generated frame
+        ev, end, _ = drive_reader(io.BytesIO(bytes(bad)), mode, validate=case['validate'], parsed=True, labelmsm=label, max_calls=budget)
+        got = [(bytes(e[1]), e[2]) for e in ev if e[0] == 'pair']
+        if len(got) != len(ref):
+            failed.append(f"{len(got)} frames with validate={case['validate']} and wrong checksums, {len(ref)} with validation on and right ones")
+        else:
+            for (rg, mg), (rr, mr) in zip(got, ref):
+                if rg[:-3] != rr[:-3]:
+                    failed.append("frame bytes differ")
+                elif (mg is None) != (mr is None) or (mg is not None and (public_attrs(mg) != public_attrs(mr) or mg.payload != mr.payload)):
+                    failed.append(f"frame {rr[:6].hex()} decodes differently with validation off")
+        if str(end) != str(ref_end) and not failed:
+            failed.append(f"iteration ends {end!r} vs {ref_end!r}")
+    else:
+        ev, end, _ = drive_reader(io.BytesIO(data), mode, validate=1, parsed=case['parsed'], labelmsm=label, max_calls=budget)
+        got = [(bytes(e[1]), e[2]) for e in ev if e[0] == 'pair' and len(e[1]) - 6 >= 2]
+        ref = [r for r in ref if len(r[0]) - 6 >= 2]
+        if [g[0] for g in got] != [r[0] for r in ref]:
+            failed.append(f"parsed={case['parsed']} returns {len(got)} raw frames {[g[0][:4].hex() for g in got]}, parsed=True returns {len(ref)} {[r[0][:4].hex() for r in ref]}")
+        if not case['parsed'] and any(g[1] is not None for g in got):
+            failed.append("parsed=False returned a parsed object")
+        if str(end) != str(ref_end) and not failed:
+            failed.append(f"iteration ends {end!r} vs {ref_end!r}")
+    return {"reproduced": bool(failed), "failed": failed, "detail": "; ".join(failed)[:500] or "ok"}
+
+
+REPLAYERS = {'options': replay_options, 'names': replay_names, 'setattr': replay_setattr, 'tables': replay_tables, 'threads': replay_threads, 'chunked': replay_chunked, 'sockread': replay_sockread, 'parseseq': replay_parseseq, 'roundtrip': replay_roundtrip, 'labelopt': replay_labelopt, 'crcseq': replay_crcseq, 'crc': replay_crc, 'construct': replay_construct, 'stream': replay_stream, 'socket': replay_stream, 'parse': replay_parse}
 
 
 def replay(case):
